@@ -27,7 +27,8 @@
 
    Switches (EventLogOps has three more): FirstSighting = FALSE sends PeerJoin on every
    SUBSCRIBE; SeedAtomic = FALSE takes the membership snapshot for seeding outside the
-   event loop.  All switches TRUE (CoalesceOnEqual FALSE) is the code as it is.       *)
+   event loop; RegisterInThunk = FALSE seeds inside the loop but registers the handler
+   afterwards from the caller.  All switches TRUE (CoalesceOnEqual FALSE) is the code as it is. *)
 EXTENDS Naturals, Sequences, FiniteSets, TLC
 
 CONSTANTS Peers, Handlers, Consumers,
@@ -38,7 +39,7 @@ CONSTANTS Peers, Handlers, Consumers,
           HCancellable,     \* handlers that may be cancelled
           Mon,              \* maintain the constant-size monitors applied/lastRet/altBad/er
           History,          \* maintain the full sequences returned/hist (small configurations only)
-          Rearm, CoalesceOnEqual, SignalOnInsert, FirstSighting, SeedAtomic
+          Rearm, CoalesceOnEqual, SignalOnInsert, FirstSighting, SeedAtomic, RegisterInThunk
 
 VARIABLES members, created, live, frozen, log, sig, mu, evq, snap,
           pc, ctxDone, ncalls, nraw,
@@ -113,17 +114,23 @@ Register(h, mem) ==
 
 \* Topic.EventHandler: the closure evaluated by the event loop seeds and registers at once
 NewHandler(h) ==
-    /\ SeedAtomic /\ h \notin created /\ Quiet
+    /\ SeedAtomic /\ RegisterInThunk /\ h \notin created /\ Quiet
     /\ Register(h, members)
     /\ UNCHANGED <<members, frozen, sig, mu, evq, snap, pc, ctxDone, ncalls, nraw, returned>>
 
-\* mutant: membership read outside the event loop, registration later
+\* mutants: the membership is read outside the event loop (SeedAtomic = FALSE: at any instant), or it is read
+\* - and the log seeded - by the thunk inside the loop but the handler enters the handler set only afterwards,
+\* from the calling goroutine (RegisterInThunk = FALSE).  Either way what the loop does between the two steps
+\* never reaches the handler; the log of a handler that is not registered yet is invisible, so both are the
+\* same pair of steps and differ only in when the first may happen.
 SnapMembers(h) ==
-    /\ ~SeedAtomic /\ h \notin created /\ ~snap[h].has
+    /\ ~SeedAtomic \/ (~RegisterInThunk /\ Quiet)
+    /\ h \notin created /\ ~snap[h].has
     /\ snap' = [snap EXCEPT ![h] = [has |-> TRUE, mem |-> members]]
     /\ UNCHANGED <<members, created, live, frozen, log, sig, mu, evq, pc, ctxDone, ncalls, nraw, returned, hist, mon>>
-RegisterLate(h) ==
-    /\ ~SeedAtomic /\ h \notin created /\ snap[h].has /\ Quiet
+RegisterLate(h) ==      \* needs the handler-set write lock: never in the middle of a notification
+    /\ ~SeedAtomic \/ ~RegisterInThunk
+    /\ h \notin created /\ snap[h].has /\ Quiet
     /\ Register(h, snap[h].mem)
     /\ UNCHANGED <<members, frozen, sig, mu, evq, snap, pc, ctxDone, ncalls, nraw, returned>>
 
